@@ -38,6 +38,10 @@ def stmt_text(k: str, i: int, rng: random.Random, fancy: bool) -> str:
         return "@print" + sp() + str(i)
     if k == "mlprint":      # the string literal spans two physical lines
         return "@print" + sp() + str(i) + " + {'a" + rng.choice(["\n", "\r\n"]) + "b'}.count - 1"
+    if k == "bprint":
+        return "@print"
+    if k == "sprint":       # the printed VALUE is a string: empty, or with line breaks in it
+        return "@print" + sp() + rng.choice(["''", '""', "'a\\nb'", '"\\n"', "'x\\r\\ny\\n'", "'' + ''"])
     if k == "esprint":      # escaped line breaks inside a literal on ONE physical line
         lit = rng.choice(["'a\\nb'", '"a\\r\\nb\\n"', "'\\n\\n\\n'", "'a\\rb'"])
         return "@print" + sp() + str(i) + " + {" + lit + "}.count - 1"
@@ -111,7 +115,7 @@ def _doc_ids(doc: str):
             ids.append(("?", ln))
     return ids
 
-def project(status, res, prints, file_path: str, to_abs=lambda x: x):
+def project(status, res, prints, file_path: str, to_abs=lambda x: x, anytext=()):
     """Projection of the real result to the abstract form (physical line numbers -> abstract line indices)."""
     import pydsdl
     pr = []
@@ -120,6 +124,9 @@ def project(status, res, prints, file_path: str, to_abs=lambda x: x):
         a = to_abs(line)
         if text.strip().isdigit() and int(text) >= 1000 and int(text) % 1000 == a and path == file_path:   # a kprint line
             refs.append((a, int(text) // 1000))
+            pr.append(a)
+            continue
+        if a in anytext and path == file_path:      # a directive whose text is not a number: only its delivery and location count
             pr.append(a)
             continue
         pr.append(a if (text.strip() == str(a) and path == file_path) else ("?", path, line, text))
@@ -283,7 +290,8 @@ def run_case(lines, out, seed: int, variants, roundtrip: bool):
             _verif_trace.drain()
             status, res, prints = dsdlio.read_ns(tr.path("ns"))
             events = _verif_trace.drain()
-            got = project(status, res, prints, fp, to_abs)
+            anytext = {n_ + 1 for n_, l_ in enumerate(lines) if l_["k"] in ("bprint", "sprint")}
+            got = project(status, res, prints, fp, to_abs, anytext)
             d = compare(exp, got, fp)
             if not d:
                 # Binding B: the recorded steps are the ones the specification prescribes
@@ -306,7 +314,7 @@ def run_case(lines, out, seed: int, variants, roundtrip: bool):
                             getattr(obj, acc).clear()
                         except (AttributeError, TypeError):
                             pass
-                got2 = project(status, res, prints, fp, to_abs)
+                got2 = project(status, res, prints, fp, to_abs, anytext)
                 if got2 != got:
                     d = [("the model changed after lists returned by its accessors were cleared", str(got2)[:200], str(got)[:200])]
             if d:
